@@ -39,6 +39,13 @@ def apply(dst, m):
     for ed in m["edits"]:
         p = os.path.join(dst, ed["file"])
         s = open(p).read()
+        if ed.get("word"):
+            # identifier rename: whole-word replacement of every occurrence (behaviour-preserving twins)
+            s2, n = re.subn(r"\b%s\b" % re.escape(ed["old"]), ed["new"], s)
+            if n != ed.get("count", n) or n == 0:
+                raise RuntimeError("mutant %s: identifier %s occurs %d times in %s (expected %s)" % (m["id"], ed["old"], n, ed["file"], ed.get("count")))
+            open(p, "w").write(s2)
+            continue
         n = s.count(ed["old"])
         if n != ed.get("count", 1):
             raise RuntimeError("mutant %s: snippet occurs %d times in %s (expected %d)" % (m["id"], n, ed["file"], ed.get("count", 1)))
@@ -63,6 +70,11 @@ def main():
         try:
             apply(dst, m)
         except RuntimeError as e:
+            if os.environ.get("CKB_VERIF_NO_SELFTEST"):
+                # called from the thorough tier on an arbitrary tree: a twin whose snippet is gone is skipped, not failed
+                results.append({"id": m["id"], "prop": m["prop"], "ok": True, "skipped": True, "why": str(e)})
+                print("SKIP %-8s %-40s %s" % (m["prop"], m["id"], e))
+                continue
             print("FAIL %-8s %-40s %s" % (m["prop"], m["id"], e))
             fails += 1
             continue
